@@ -68,10 +68,65 @@ def gen_default(rng, kinds=None):
 
 
 RECEIVER_NAMES = ["self", "cls"]
+GN_DEFAULTS = ["5", "0", "-1", "2.5", "True", "'x'", "mnist", "(1, 2)", "[]", "None"]
 
 
-def gen_def(rng, kind=None, name=None, safe=False, allow_vararg=True, receiver_names=0.0):
+def _gn_prose(rng, p_default, tags):
+    """prose of one Google / numpydoc entry; with probability p_default it documents a default"""
+    prose = rng.choice(PROSE[:6])
+    if p_default and rng.random() < p_default:
+        prose = (prose + " Defaults to " + rng.choice(GN_DEFAULTS)).strip()
+        tags.append("doc-default")
+    return prose
+
+
+def mutate_doc_lines(rng, d):
+    """damage the docstring lines `d` (in place) by ONE small text edit of the kind a person makes: a bracket or colon
+    dropped or doubled, a line indented differently, an entry cut short, a section underline shortened.  Returns the name
+    of the edit or None when there was nothing to edit.  Entry lines are preferred to summary lines."""
+    idx = [i for i, l in enumerate(d) if l.strip() and l.strip() != '"""']
+    entry = [i for i in idx if i >= 2 and (d[i].lstrip().startswith(":") or "(" in d[i] or " : " in d[i])]
+    if not idx:
+        return None
+    i = rng.choice(entry) if entry and rng.random() < 0.85 else rng.choice(idx)
+    l = d[i]
+    edits = ["drop-close", "drop-close", "drop-close", "drop-open", "drop-colon", "add-colon", "indent", "dedent", "cut", "underline"]
+    rng.shuffle(edits)
+    for e in edits:
+        if e == "drop-close" and ")" in l:
+            k = l.rindex(")")
+            d[i] = l[:k] + l[k + 1:]
+        elif e == "drop-open" and "(" in l:
+            k = l.index("(")
+            d[i] = l[:k] + l[k + 1:]
+        elif e == "drop-colon" and ":" in l.strip()[1:]:
+            k = l.index(":", len(l) - len(l.lstrip()) + 1)
+            d[i] = l[:k] + l[k + 1:]
+        elif e == "add-colon" and l.strip():
+            d[i] = l.rstrip() + ":"
+        elif e == "indent":
+            d[i] = "    " + l
+        elif e == "dedent" and l.startswith(" "):
+            d[i] = l.lstrip()
+        elif e == "cut" and len(l.split()) > 1:
+            d[i] = l[:len(l) - len(l.lstrip())] + l.split()[0]
+        elif e == "underline" and set(l.strip()) == {"-"}:
+            d[i] = l.replace("-", "", len(l.strip()) - 3)
+        else:
+            continue
+        return e
+    return None
+
+
+def gen_def(rng, kind=None, name=None, safe=False, allow_vararg=True, receiver_names=0.0, type_first=0.0, gn_defaults=0.0,
+            malformed=0.0, dmodes=None):
     """returns (source of one def at column 0, info dict).
+    type_first: probability that the `:type n:` field of a ReST entry is written BEFORE its `:param n:` / `:cvar n:` field
+    (Sphinx accepts the fields of one parameter in either order).
+    gn_defaults: probability that a Google / numpydoc entry documents a default ("... Defaults to 5").
+    malformed: probability that the finished docstring is damaged by one small text edit (mutate_doc_lines): such a
+    docstring may be rejected by the docstring parser part-way; the definition is still one Python executes.
+    dmodes: the documentation modes to draw from (None: the standard mix).
     receiver_names: probability that an ordinary parameter which is NOT the first positional one (a later positional or a
     keyword-only parameter) is called `self` / `cls`: for Python such a parameter is just a parameter."""
     used = set()
@@ -138,7 +193,7 @@ def gen_def(rng, kind=None, name=None, safe=False, allow_vararg=True, receiver_n
     ret = rng.choice(RET_ANNS)
     head = "def %s(%s)%s:" % (fname, ", ".join(parts), " -> " + ret if ret else "")
     # docstring
-    dmode = rng.choice(["none", "summary", "all", "all", "shuffled", "prefix", "some", "some", "extra", "google", "numpy"])
+    dmode = rng.choice(dmodes or ["none", "summary", "all", "all", "shuffled", "prefix", "some", "some", "extra", "google", "numpy"])
     documentable = sig_names + ([kwn] if kwn else []) + (["args"] if "*args" in parts else [])
     if dmode in ("all", "google", "numpy"):
         dn = list(documentable)
@@ -162,14 +217,14 @@ def gen_def(rng, kind=None, name=None, safe=False, allow_vararg=True, receiver_n
         d = ['"""', rng.choice(["Summary line.", "Does things.\n\n    More text here.", ""])]
         if dmode == "google":
             if dn:
-                d += ["", "Args:"] + ["  %s (%s): %s" % (n, rng.choice(DOC_TYPES), rng.choice(PROSE[:6])) for n in dn]
+                d += ["", "Args:"] + ["  %s (%s): %s" % (n, rng.choice(DOC_TYPES), _gn_prose(rng, gn_defaults, tags)) for n in dn]
             if rng.random() < 0.4:
                 d += ["", "Returns:", "  %s: the result" % rng.choice(DOC_TYPES)]
         elif dmode == "numpy":
             if dn:
                 d += ["", "Parameters", "----------"]
                 for n in dn:
-                    d += ["%s : %s" % (n, rng.choice(DOC_TYPES)), "    " + rng.choice(PROSE[:6])]
+                    d += ["%s : %s" % (n, rng.choice(DOC_TYPES)), "    " + _gn_prose(rng, gn_defaults, tags)]
             if rng.random() < 0.4:
                 d += ["", "Returns", "-------", rng.choice(DOC_TYPES), "    the result"]
         else:
@@ -182,13 +237,22 @@ def gen_def(rng, kind=None, name=None, safe=False, allow_vararg=True, receiver_n
                     tags.append("doc-default")
                 d.append(":%s %s: %s" % (rng.choice(["param", "param", "param", "cvar"]), n, prose))
                 if rng.random() < 0.4 or (n == kwn and not n.endswith("kwargs") and rng.random() < 0.6):
-                    d.append(":type %s: ```%s```" % (n, rng.choice(DOC_TYPES)))
+                    tl = ":type %s: ```%s```" % (n, rng.choice(DOC_TYPES))
+                    if type_first and rng.random() < type_first:     # field order: the type field first
+                        d[-1:-1] = [tl] + ([""] if rng.random() < 0.2 else [])
+                        tags.append("doc-type-first")
+                    else:
+                        d.append(tl)
                     tags.append("doc-type")
                 if rng.random() < 0.5:
                     d.append("")
             if rng.random() < 0.3:
                 d += [":returns: the result", ":rtype: ```%s```" % rng.choice(DOC_TYPES)]
                 tags.append("doc-returns")
+        if malformed and rng.random() < malformed:
+            what = mutate_doc_lines(rng, d)
+            if what:
+                tags.append("doc-malformed:" + what)
         d.append('"""')
         lines += [ind + x if x else "" for x in "\n".join(d).split("\n")]
     for _ in range(rng.choice([0, 0, 1])):
@@ -200,23 +264,35 @@ def gen_def(rng, kind=None, name=None, safe=False, allow_vararg=True, receiver_n
     return src, {"tags": tags, "kind": kind, "sig_names": sig_names, "kwarg": kwn, "documented": dn, "name": fname}
 
 
-def gen_class(rng, receiver_names=0.0):
-    """a class with an __init__ (usually), other methods, attributes, nested defs"""
+def gen_class(rng, receiver_names=0.0, class_types=0.0, type_first=0.0, **defkw):
+    """a class with an __init__ (usually), other methods, attributes, nested defs.
+    class_types: probability that a `:cvar n:` entry of the class docstring also has a `:type n:` field; type_first: that
+    this field (and those of the methods' docstrings) comes before the entry it belongs to; defkw: passed to gen_def"""
     lines = ["class C(object):"]
+    tags = []
     if rng.random() < 0.6:
         lines += ['    """', "    Config class.", ""]
         for n in rng.sample(ARG_NAMES, rng.randint(0, 3)):
             lines.append("    :cvar %s: %s" % (n, rng.choice(PROSE[:6])))
+            if class_types and rng.random() < class_types:
+                tl = "    :type %s: ```%s```" % (n, rng.choice(DOC_TYPES))
+                if type_first and rng.random() < type_first:
+                    lines[-1:-1] = [tl]
+                    tags.append("class-doc-type-first")
+                else:
+                    lines.append(tl)
+                tags.append("class-doc-type")
+                if rng.random() < 0.3:
+                    lines.append("")
         lines.append('    """')
     for n in rng.sample(ARG_NAMES, rng.randint(0, 2)):
         lines.append("    %s: %s = %s" % (n, rng.choice(ANNS[:8]), rng.choice(["5", "None", "'x'", "[]", "{}", "(1, 2)", "np.x"])))
     order = ["helper", "__init__", "__call__"]
     rng.shuffle(order)
-    tags = []
     for m in order:
         if rng.random() < 0.75:
             src, info = gen_def(rng, kind=rng.choice(["self", "self", "self", "static", "cls"]), name=m,
-                                receiver_names=receiver_names)
+                                receiver_names=receiver_names, type_first=type_first, **defkw)
             if rng.random() < 0.1:
                 lines.append("    if True:")
                 lines += ["        " + l if l else "" for l in src.rstrip("\n").split("\n")]
@@ -286,7 +362,7 @@ def gen(rng, n, tier="quick"):
     while len(cases) < n:
         r = rng.random()
         if r < 0.50:
-            src, info = gen_def(rng, receiver_names=0.06)
+            src, info = gen_def(rng, receiver_names=0.06, type_first=0.3, gn_defaults=0.3)
             if not _ok_source(src):
                 continue
             fd = ast.parse(src).body[0]
@@ -302,7 +378,7 @@ def gen(rng, n, tier="quick"):
             ordk = rng.choice(["sorted", "reversed", "rotated"])
             add("parse_function", [src, infer_type, rng.random() < 0.8, ft, fnm, ordk], info["tags"] + ["order:" + ordk])
         elif r < 0.62:
-            src, tags = gen_class(rng, receiver_names=0.06)
+            src, tags = gen_class(rng, receiver_names=0.06, class_types=0.4, type_first=0.3, gn_defaults=0.3)
             if not _ok_source(src):
                 continue
             cd = ast.parse(src).body[0]
